@@ -366,12 +366,57 @@ struct AltT {
   }
 };
 
+// ------------------------------------------------------------------ mempool activity on an instance (C07 histories)
+//   on <X> sub <t|w|v id>     MemPool::submit by registry id  -> valid | stateful:<path> | stateless:<path>
+//   on <X> gen                MemPool::generatePopData()      -> number of payloads offered
+//   on <X> rmall <a>          MemPool::removeAll(PopData of ALT block a)
+//   on <X> cleanup            MemPool::cleanUp()
+struct TSession : public vw::Session {
+  template <typename T>
+  static std::string doSubmit(vw::Instance& I, const T& pl) {
+    ValidationState st;
+    auto r = I.mempool->submit<T>(pl, false, st);
+    if (r.isValid()) return "valid";
+    if (r.isFailedStateful()) return "stateful:" + st.GetPath();
+    return "stateless:" + st.GetPath();
+  }
+  std::string extra(vw::Instance& I, const std::vector<std::string>& t) override {
+    const std::string& c = t[0];
+    if (c == "sub" && t.size() > 1) {
+      const std::string& id = t[1];
+      if (id[0] == 't') {
+        auto it = reg->atv.find(id);
+        return it == reg->atv.end() ? "SKIP" : doSubmit<ATV>(I, it->second);
+      }
+      if (id[0] == 'w') {
+        auto it = reg->vtb.find(id);
+        return it == reg->vtb.end() ? "SKIP" : doSubmit<VTB>(I, it->second);
+      }
+      auto it = reg->vbk.find(id);
+      return it == reg->vbk.end() ? "SKIP" : doSubmit<VbkBlock>(I, it->second);
+    }
+    if (c == "gen") {
+      // documented precondition: the best chain is applied and its tip connected (always true for an instance)
+      PopData P = I.mempool->generatePopData();
+      return "ok " + std::to_string(P.context.size()) + "/" + std::to_string(P.vtbs.size()) + "/" + std::to_string(P.atvs.size());
+    }
+    if (c == "rmall" && t.size() > 1) {
+      auto it = reg->alt.find(t[1]);
+      if (it == reg->alt.end() || !it->second.hasPd) return "SKIP";
+      I.mempool->removeAll(it->second.pd);
+      return "ok";
+    }
+    if (c == "cleanup") { I.mempool->cleanUp(); return "ok"; }
+    return "";
+  }
+};
+
 }  // namespace
 
 int main() {
   SetLogger<Logger>(LogLevel::off);
   setMockTime(1700000000);
-  vw::Session s;
+  TSession s;
   std::unique_ptr<AltT> alt(new AltT(s));
   std::unique_ptr<Pow> pow;
   return vh::main_loop([&](const std::string& id, const std::string& op, const std::vector<std::string>& a) -> std::string {
